@@ -113,3 +113,138 @@ package flamego
 //@   ensures len(w.beforeFuncs) == len(old(w.beforeFuncs)) + 1
 //@   ensures w.beforeFuncs[len(old(w.beforeFuncs))] == before
 //@   ensures forall k int :: 0 <= k && k < len(old(w.beforeFuncs)) ==> w.beforeFuncs[k] == old(w.beforeFuncs[k])
+
+// ---------------------------------------------------------------------------
+// C03 Handler chain
+// ---------------------------------------------------------------------------
+
+//@ ghost field context.started int           // number of chain slots started so far
+//@ ghost field ResponseWriter.isWritten bool  // the response writer's Written() as seen through the interface
+
+//@ iface ResponseWriter.Written(this) r
+//@   ensures r == this.isWritten
+
+// slot k of the chain: handlers[k] for k < n, the final action for k == n
+//@ define chainSlot(c *context, k int) Handler = ite(k == len(c.handlers), c.action, c.handlers[k])
+
+// index and the ghost count of started slots agree, except once the chain is exhausted with no final action
+//@ define ctxAligned(c *context) bool = c.index == c.started ||
+//@     (c.action == nil && c.started == len(c.handlers) && c.index == len(c.handlers) + 1)
+
+//@ define ctxInv(c *context) bool = c.responseWriter != nil && c.request != nil && c.Injector != nil &&
+//@     0 <= c.index && ctxAligned(c) &&
+//@     (forall k int :: 0 <= k && k < len(c.handlers) ==> c.handlers[k] != nil)
+
+// History constraint of a context as seen by arbitrary handler code (DESIGN.md §2.6): handlers may call
+// Next() any number of times and write to the response; every exported method respects ctxStep, and
+// ctxStep is reflexive and transitive, so any sequence of calls does.
+//@ define ctxStep(a0 bool, s0 int, w0 bool, a1 bool, s1 int, w1 bool) bool = (a0 ==> a1) && s1 >= s0 && (w0 ==> w1)
+//@ lemma[C03] ctxStepRefl: forall a bool, s int, w bool :: ctxStep(a, s, w, a, s, w)
+//@ lemma[C03] ctxStepTrans: forall a0 bool, s0 int, w0 bool, a1 bool, s1 int, w1 bool, a2 bool, s2 int, w2 bool ::
+//@     ctxStep(a0, s0, w0, a1, s1, w1) && ctxStep(a1, s1, w1, a2, s2, w2) ==> ctxStep(a0, s0, w0, a2, s2, w2)
+
+// Callback model: invoking a handler lets it act on the context through the public API only.
+//@ model handlerCallback(c *context, f Handler) (vals []reflect.Value, err error)
+//@   modifies c.index, c.started, c.responseWriter.isWritten
+//@   ensures ctxStep(old(ctxAligned(c)), old(c.started), old(c.responseWriter.isWritten), ctxAligned(c), c.started, c.responseWriter.isWritten)
+
+//@ functype ReturnHandler(c, vals)
+//@   modifies c.(*context).responseWriter.isWritten
+//@   ensures old(c.(*context).responseWriter.isWritten) ==> c.(*context).responseWriter.isWritten
+
+//@ func (*context).run
+//@   props C03
+//@   skip typeassert nil@call:handleReturn
+//@   call Invoke#0 as handlerCallback(c, h)
+//@   requires ctxInv(c)
+//@   modifies c.index, c.started, c.responseWriter.isWritten
+//@   panics true
+//@   assert before Invoke#0: c.started <= len(c.handlers) && h == chainSlot(c, c.started)
+//@   assert before Invoke#0: lastselect() != 0
+//@   ghost before Invoke#0: c.started = c.started + 1
+//@   ensures ctxInv(c)
+//@   ensures ctxStep(old(ctxAligned(c)), old(c.started), old(c.responseWriter.isWritten), ctxAligned(c), c.started, c.responseWriter.isWritten)
+//@   ensures c.index > len(c.handlers) || c.responseWriter.isWritten || lastselect() == 0
+//@   loop 0 invariant ctxInv(c)
+//@   loop 0 invariant c.started >= pre(c.started) && (pre(c.responseWriter.isWritten) ==> c.responseWriter.isWritten)
+//@   loop 0 invariant c.started == pre(c.started) || !c.responseWriter.isWritten
+//@   loop 0 decreases len(c.handlers) + 1 - c.index
+
+//@ func (*context).Next
+//@   props C03
+//@   requires ctxInv(c)
+//@   modifies c.index, c.started, c.responseWriter.isWritten
+//@   panics true
+//@   ensures ctxInv(c)
+//@   ensures ctxStep(old(ctxAligned(c)), old(c.started), old(c.responseWriter.isWritten), ctxAligned(c), c.started, c.responseWriter.isWritten)
+//@   ensures c.index > len(c.handlers) || c.responseWriter.isWritten || lastselect() == 0
+
+//@ func (*context).setAction
+//@   props C03
+//@   modifies c.action
+//@   ensures c.action == h
+
+//@ define handlersNonNil(hs []Handler) bool = forall k int :: 0 <= k && k < len(hs) ==> hs[k] != nil
+
+//@ func newContext
+//@   props C03
+//@   requires r != nil && w != nil
+//@   requires handlersNonNil(handlers)
+//@   ensures dyn(result) == type(*context) && fresh(result)
+//@   ensures ctxInv(result.(*context))
+//@   ensures result.(*context).handlers == handlers && result.(*context).action == nil
+//@   ensures result.(*context).index == 0 && result.(*context).started == 0
+//@   ensures fresh(result.(*context).Injector) && fresh(result.(*context).responseWriter)
+
+//@ func (*Flame).createContext
+//@   props C03
+//@   requires r != nil && w != nil
+//@   requires handlersNonNil(handlers) && handlersNonNil(f.handlers)
+//@   ensures dyn(result) == type(*context) && fresh(result)
+//@   ensures ctxInv(result.(*context))
+//@   ensures result.(*context).index == 0 && result.(*context).started == 0
+//@   ensures result.(*context).action == f.action
+//@   ensures len(result.(*context).handlers) == len(f.handlers) + len(handlers)
+//@   ensures forall k int :: 0 <= k && k < len(f.handlers) ==> result.(*context).handlers[k] == f.handlers[k]
+//@   ensures forall k int :: 0 <= k && k < len(handlers) ==> result.(*context).handlers[len(f.handlers) + k] == handlers[k]
+//@   ensures fresh(result.(*context).handlers) && fresh(result.(*context).responseWriter)
+
+// ---------------------------------------------------------------------------
+// C07 / C03: one chain per request
+// ---------------------------------------------------------------------------
+
+//@ ghost field http.Request.chains int   // number of handler chains run for this request
+
+//@ functype contextCreator(w, r, params, handlers, urlPath) c
+//@   requires w != nil && r != nil && handlersNonNil(handlers)
+//@   ensures c != nil && dyn(c) == type(*context) && fresh(c) && ctxInv(c.(*context))
+//@   ensures c.(*context).index == 0 && c.(*context).started == 0 && fresh(c.(*context).responseWriter)
+
+// The handler stored in a route leaf / the not-found handler: runs exactly one chain for the request.
+//@ functype route.Handler(w, req, params)
+//@   requires w != nil && req != nil
+//@   modifies req.chains
+//@   panics true
+//@   ensures req.chains == old(req.chains) + 1
+
+//@ functype http.HandlerFunc(w, req)
+//@   requires w != nil && req != nil
+//@   modifies req.chains
+//@   panics true
+//@   ensures req.chains == old(req.chains) + 1
+
+//@ func (*router).Route$1
+//@   props C03 C07
+//@   also functype route.Handler
+//@   requires-captured handlersNonNil(handlers) && r != nil && r.contextCreator != nil
+//@   modifies req.chains
+//@   panics true
+//@   ghost before run#0: req.chains = req.chains + 1
+
+//@ func (*router).NotFound$1
+//@   props C03 C07
+//@   also functype http.HandlerFunc
+//@   requires-captured handlersNonNil(handlers) && r != nil && r.contextCreator != nil
+//@   modifies req.chains
+//@   panics true
+//@   ghost before run#0: req.chains = req.chains + 1
